@@ -1,6 +1,7 @@
 package main
 
 import (
+	"crypto/sha256"
 	"fmt"
 	"go/types"
 	"os"
@@ -296,7 +297,14 @@ func (e *Engine) findFunc(pkgPath, key string) *ssa.Function {
 
 // ---------------------------------------------------------------------------
 
+func (r *OblResult) wait() {
+	if r.done != nil {
+		<-r.done
+	}
+}
+
 type OblResult struct {
+	done    chan struct{}
 	Name    string `json:"name"`
 	Kind    string `json:"kind"`
 	Func    string `json:"function"`
@@ -330,7 +338,18 @@ type FuncReport struct {
 
 func (e *Engine) newCtx(fn *ssa.Function, c *Contract) *Ctx {
 	return &Ctx{eng: e, fn: fn, contract: c, declSet: map[string]bool{}, strLits: map[string]int64{}, noteSet: map[string]bool{},
-		maxPaths: 4000, closures: map[string]*Closure{}}
+		maxPaths: maxPathsDefault(), closures: map[string]*Closure{}, loopCovers: map[int][]*Obligation{}}
+}
+
+func maxPathsDefault() int {
+	if v := os.Getenv("GOVC_MAXPATHS"); v != "" {
+		var n int
+		fmt.Sscanf(v, "%d", &n)
+		if n > 0 {
+			return n
+		}
+	}
+	return 4000
 }
 
 func (e *Engine) newState(ctx *Ctx, fn *ssa.Function, c *Contract) *State {
@@ -373,6 +392,9 @@ func (e *Engine) verifyFunc(fn *ssa.Function, c *Contract) (rep *FuncReport) {
 	start := time.Now()
 	rep = &FuncReport{Key: c.Key, Pkg: shortPkg(c.PkgPath), Props: c.Props}
 	ctx := e.newCtx(fn, c)
+	if os.Getenv("GOVC_FORKHIST") != "" {
+		ctx.forkHist = map[string]int{}
+	}
 	defer func() {
 		rep.Ms = time.Since(start).Milliseconds()
 		rep.Notes = ctx.notes
@@ -588,6 +610,31 @@ func (e *Engine) verifyFunc(fn *ssa.Function, c *Contract) (rep *FuncReport) {
 	})
 	// discharge
 	rep.Results = e.discharge(ctx, ctx.obls)
+	// vacuity: for every loop that has paths going round it, one of them must be satisfiable
+	// (otherwise every invariant-preservation obligation of that loop holds for the wrong reason)
+	var lks []int
+	for k := range ctx.loopCovers {
+		lks = append(lks, k)
+	}
+	sort.Ints(lks)
+	for _, k := range lks {
+		ok := false
+		for i, cv := range ctx.loopCovers[k] {
+			if i >= 40 {
+				break
+			}
+			q := e.query(ctx, cv)
+			r, _ := Solve(e.workdir, cv.Name, q, "first")
+			rep.Covers++
+			if r.Verdict == "sat" {
+				ok = true
+				break
+			}
+		}
+		if !ok {
+			rep.Vacuity = fmt.Sprintf("no path that goes round loop %d is satisfiable (contradictory invariant, or an over-strong assumed contract inside the loop)", k)
+		}
+	}
 	// vacuity: at least one return must be reachable
 	if len(covers) == 0 {
 		rep.Vacuity = "no return path was generated"
@@ -693,40 +740,109 @@ func (e *Engine) ifaceEnv(s *State, fn *ssa.Function, ic *Contract, results []Va
 func (e *Engine) query(ctx *Ctx, o *Obligation) string { return e.queryAx(ctx, o, !o.Cover) }
 
 func (e *Engine) queryAx(ctx *Ctx, o *Obligation, withAxioms bool) string {
-	var b strings.Builder
-	b.WriteString("(set-option :produce-models true)\n(set-logic ALL)\n")
-	for _, d := range ctx.decls[:o.Decls] {
-		b.WriteString(d)
-		b.WriteString("\n")
-	}
+	var body strings.Builder
 	// axioms are included only when every spec function they talk about occurs in the goal or path condition
-	body := strings.Join(o.Asserts, "\n") + "\n" + o.Goal.S
+	core := strings.Join(o.Asserts, "\n") + "\n" + o.Goal.S
 	for _, ax := range ctx.axioms {
 		need := withAxioms
 		for _, s := range ax.syms {
-			if !strings.Contains(body, s) {
+			if !strings.Contains(core, s) {
 				need = false
 				break
 			}
 		}
 		if need {
-			b.WriteString(ax.text)
-			b.WriteString("\n")
-			ctx.note("axiom %s: %s", ax.name, ax.src)
+			body.WriteString(ax.text)
+			body.WriteString("\n")
+			ctx.noteLocked("axiom %s: %s", ax.name, ax.src)
 		}
 	}
 	for _, a := range o.Asserts {
-		b.WriteString("(assert ")
-		b.WriteString(a)
-		b.WriteString(")\n")
+		body.WriteString("(assert ")
+		body.WriteString(a)
+		body.WriteString(")\n")
 	}
 	if !o.Cover {
-		b.WriteString("(assert (not ")
-		b.WriteString(o.Goal.S)
-		b.WriteString("))\n")
+		body.WriteString("(assert (not ")
+		body.WriteString(o.Goal.S)
+		body.WriteString("))\n")
 	}
+	bs := body.String()
+	// only the declarations this query mentions (names introduced on other paths are left out)
+	used := symbolsOf(bs)
+	var b strings.Builder
+	b.WriteString("(set-option :produce-models true)\n(set-logic ALL)\n")
+	var globals []string
+	for _, d := range ctx.decls[:o.Decls] {
+		if strings.HasPrefix(d, "(assert") {
+			globals = append(globals, d)
+			for k := range symbolsOf(d) {
+				used[k] = true
+			}
+		}
+	}
+	for _, d := range ctx.decls[:o.Decls] {
+		if strings.HasPrefix(d, "(assert") {
+			continue
+		}
+		if used[declName(d)] {
+			b.WriteString(d)
+			b.WriteString("\n")
+		}
+	}
+	for _, g := range globals {
+		b.WriteString(g)
+		b.WriteString("\n")
+	}
+	b.WriteString(bs)
 	b.WriteString("(check-sat)\n(get-model)\n")
 	return b.String()
+}
+
+// declName extracts NAME from "(declare-const NAME ..." / "(declare-fun NAME ...".
+func declName(d string) string {
+	i := strings.Index(d, " ")
+	if i < 0 {
+		return ""
+	}
+	rest := d[i+1:]
+	if strings.HasPrefix(rest, "|") {
+		if j := strings.Index(rest[1:], "|"); j >= 0 {
+			return rest[:j+2]
+		}
+	}
+	if j := strings.IndexAny(rest, " )"); j >= 0 {
+		return rest[:j]
+	}
+	return rest
+}
+
+// symbolsOf returns the set of SMT symbols (simple and |quoted|) occurring in a script.
+func symbolsOf(s string) map[string]bool {
+	out := map[string]bool{}
+	n := len(s)
+	for i := 0; i < n; {
+		c := s[i]
+		switch {
+		case c == '|':
+			j := strings.IndexByte(s[i+1:], '|')
+			if j < 0 {
+				return out
+			}
+			out[s[i:i+j+2]] = true
+			i += j + 2
+		case c == '(' || c == ')' || c == ' ' || c == '\n' || c == '\t':
+			i++
+		default:
+			j := i
+			for j < n && s[j] != '(' && s[j] != ')' && s[j] != ' ' && s[j] != '\n' && s[j] != '\t' && s[j] != '|' {
+				j++
+			}
+			out[s[i:j]] = true
+			i = j
+		}
+	}
+	return out
 }
 
 // discharge runs all obligations (grouped by name) on the portfolio, in parallel.
@@ -749,7 +865,7 @@ func (e *Engine) discharge(ctx *Ctx, obls []*Obligation) []*OblResult {
 	}
 	sem := make(chan struct{}, 14)
 	var wg sync.WaitGroup
-	seen := map[string]*OblResult{}
+	seen := map[[32]byte]*OblResult{}
 	var mu sync.Mutex
 	for _, j := range jobs {
 		j := j
@@ -757,22 +873,29 @@ func (e *Engine) discharge(ctx *Ctx, obls []*Obligation) []*OblResult {
 			j.res = &OblResult{Verdict: "discharged", Solver: "fold"}
 			continue
 		}
-		j.q = e.query(ctx, j.o)
-		mu.Lock()
-		if r, ok := seen[j.q]; ok {
-			j.res = r
-			mu.Unlock()
-			continue
-		}
 		r := &OblResult{}
-		seen[j.q] = r
 		j.res = r
-		mu.Unlock()
 		wg.Add(1)
+		sem <- struct{}{}
 		go func() {
 			defer wg.Done()
-			sem <- struct{}{}
 			defer func() { <-sem }()
+			// queries are built on demand and dropped after solving (a function can have tens of
+			// thousands of path-obligations); identical queries are solved once
+			q := e.query(ctx, j.o)
+			h := sha256.Sum256([]byte(q))
+			mu.Lock()
+			if prev, ok := seen[h]; ok {
+				mu.Unlock()
+				prev.wait()
+				*r = *prev
+				return
+			}
+			r.done = make(chan struct{})
+			seen[h] = r
+			mu.Unlock()
+			defer close(r.done)
+			j.q = q
 			sr, all := Solve(e.workdir, j.o.Name, j.q, e.mode)
 			if sr.Verdict != "unsat" && sr.Verdict != "sat" && strings.Contains(j.q, "(forall ") {
 				// quantified axioms keep solvers from returning models: ask again without them;
@@ -827,6 +950,7 @@ func (e *Engine) discharge(ctx *Ctx, obls []*Obligation) []*OblResult {
 				r.Raw = truncate(sr.Raw, 2000)
 				r.Query = j.q
 			}
+			j.q = ""
 		}()
 	}
 	wg.Wait()
